@@ -323,7 +323,11 @@ class Prober:
               'same': True, 'real_ok': True, 'cls': 'ok', 'text': '', 'value': None, 'imp': True}
         try:
             if kind == 'poll':
-                getattr(obj, 'read_' + attr)()
+                # the body of the real poll thread, run once: it selects the polled parameters itself, writes the
+                # configured values, reads every polled parameter once, calls the callback - which empties the module
+                # list, so that the poll loop proper ends at once
+                mods = [obj]
+                obj._Module__pollThread(mods, mods.clear)
             else:
                 setattr(obj, attr, value)
         except Exception as e:
@@ -332,14 +336,13 @@ class Prober:
         self.events.append(ev)
         return ev
 
-    def history(self, objs, consts=()):
-        """describe again after reads / changes, then polls and driver assignments, then describe and read again"""
+    def history(self, objs, assigns=()):
+        """describe again after reads / changes, then a poll cycle of the real poll thread body and driver-side
+        assignments to ordinary (not constant) parameters, then describe and read again"""
         self.request('describe', '', '', None)
         for m, obj in objs.items():
-            for attr, pobj in obj.parameters.items():
-                if getattr(type(obj), 'read_' + attr, None) is not None and getattr(getattr(obj, 'read_' + attr), 'poll', False):
-                    self.internal('poll', obj, m, attr, pobj.export)
-        for m, attr, value in consts:       # driver-side assignment to parameters that are constants
+            self.internal('poll', obj, m, '', '')
+        for m, attr, value in assigns:
             self.internal('assign', objs[m], m, attr, objs[m].parameters[attr].export, value)
         self.request('describe', '', '', None)
         for m, obj in objs.items():
@@ -436,10 +439,12 @@ def _undescribed_names(shape):
 
 
 def _const_assignments(shape):
-    """(module, attribute, value): a driver-side assignment of another valid value to every constant"""
-    return [(m, a, dc.internal(x['dt'], x['ret'] if x['ret'] != NULL else x['init']))
+    """(module, attribute, value): a driver-side assignment of another valid value to the ordinary parameters
+    (assigning to a constant is a programming error of the driver, not something the framework answers for)"""
+    return [(m, a, dc.internal(x['dt'], x['ret']))
             for m, accs in shape.items() for a, x in accs.items()
-            if x['kind'] == 'param' and x['const'] != NULL and not x.get('feature')]
+            if x['kind'] == 'param' and x['const'] == NULL and x['ret'] != NULL and not x.get('feature')
+            and not x.get('islimit')]
 
 
 def _run_node(node):
@@ -773,9 +778,11 @@ def _sig(tr, l, clause, world, hidden=(), shape=None):
         target = dt = 'module'
     if req['act'] == 'describe' and not req['mod']:
         target = dt = 'node'
+    if req['act'] == 'poll':
+        target = dt = 'module'         # one poll cycle of the module's poll thread body
     after = 'requests'
     if any(e['req']['act'] in ('poll', 'assign') and req['mod'] in ('', e['req']['mod']) for e in tr[1:l]):
-        after = 'poll/assign'          # the cache was touched from the driver side before
+        after = 'poll'                 # a poll cycle / driver-side assignment happened before
     if [req['mod'], req['name']] in list(hidden):
         target = 'cfg-hidden'
     if shape:        # generated node: the generator knows where the final accessible comes from
